@@ -112,6 +112,45 @@ def rule_label(chk, rid, runs):
                     break
             chk.decide(rid, cons, best[0], f"stack position of the label named by {rec.yid} vs position of the element {what}: "
                        f"{best[1]}" + shared.cfgs(run_), rel=run_.rel, node=rec.node)
+        # (c) storage carried by the tracked element: when a load reads its source storage from a component of the stack
+        #     element (`cp_n, cp_storage = snapshots[-1]`), every push must record, in that component, the storage that the
+        #     write of that very checkpoint names
+        carried = {}
+        for rec in it.yields:
+            if rec.kind in ("Copy", "Move") and rec.arg(2) == WORK and is_lin(rec.arg(1)):
+                for c in sorted(it.containers):
+                    ar = it.container_arity.get(c) or 0
+                    for k_ in range(ar):
+                        if k_ == 1:
+                            continue
+                        for sym in (f"top({c}).{k_}", f"popped({c}).{k_}"):
+                            if rec.state.entails_eq(rec.arg(1) - Lin.sym(sym)) == "yes":
+                                carried.setdefault(c, set()).add(k_)
+        for c, ks in sorted(carried.items()):
+            if len(ks) != 1:
+                continue
+            k_ = next(iter(ks))
+            by_yid = {}
+            for rec in it.yields:
+                by_yid.setdefault(rec.yid, []).append(rec)
+            pk = 0
+            for node, cc, op, vals, st in it.cops:
+                if cc != c or op != "push" or len(vals) <= k_:
+                    continue
+                cons = f"{run_.construct}#push-{c}[{pk}]/carried-storage"
+                pk += 1
+                pl = label_repr(st, vals[k_], it)
+                ls = last_set(st)
+                writers = [r for y in (ls or []) for r in by_yid.get(y, []) if shared.is_write(r)]
+                if not writers or ls is None or len(writers) != sum(len(by_yid.get(y, [])) for y in ls):
+                    continue        # pushed before its write, or after something else: decided by TRACK
+                res = [labels_agree(pl, label_repr(r.state, r.arg(4), it)) for r in writers]
+                ok = True if all(x is True for x in res) else (False if any(x is False for x in res) else None)
+                wl = sorted({str(label_repr(r.state, r.arg(4), it)[1]) for r in writers if label_repr(r.state, r.arg(4), it)})
+                chk.decide(rid, cons, ok,
+                           f"the element pushed onto {c} records the storage {pl[1] if pl else '?'}; the checkpoint was written to {wl}: "
+                           + ("the later load reads it where it is" if ok else "the later load names the recorded storage, where the "
+                              "checkpoint is not") + shared.cfgs(run_), rel=run_.rel, node=node)
         # (b) class labels
         w0, w1 = [], []
         for rec in it.yields:
@@ -125,6 +164,9 @@ def rule_label(chk, rid, runs):
             rl = label_repr(st, rec.arg(1), it)
             if rl and rl[0] == "table":
                 continue    # decided by (a)
+            if is_lin(rec.arg(1)) and any(st.entails_eq(rec.arg(1) - Lin.sym(f"{w}({c}).{k_}")) == "yes"
+                                          for c, ks in carried.items() if len(ks) == 1 for k_ in ks for w in ("top", "popped")):
+                continue    # the storage recorded with the element: decided by (c) at the pushes
             x = rec.arg(0)
             cls = None
             seeds = [s for s in st.symbols() if s.startswith("seed(")]
@@ -136,8 +178,14 @@ def rule_label(chk, rid, runs):
                         cls = "sweep"
                     elif st.entails_neq(x - Lin.sym(s)) and cls is None:
                         cls = "pushed"
-            elif not seeds_anywhere(it):
-                cls = "pushed" if w1 or w0 else None
+            elif not seeds_anywhere(it) and is_lin(x):
+                # no container is seeded: the checkpoint read is a pushed one if the step read *is* a tracked element (the
+                # top of a stack, or the element just removed); a step taken from elsewhere (an implicit seed, a
+                # parameter) is not classified
+                for c in sorted(it.containers):
+                    for sym in (shared.top_syms(it, c), f"popped({c})"):
+                        if st.entails_eq(x - Lin.sym(sym)) == "yes":
+                            cls = "pushed" if (w1 or w0) else None
             writers = w0 if cls == "sweep" else (w1 or w0 if cls == "pushed" else [])
             if cls == "pushed" and not w1 and run_.numcase:
                 # a boundary cell in which no reversal-time write is reachable: the read of such a checkpoint is not
@@ -341,6 +389,85 @@ def rule_paired(chk, rid, ctx):
                 break
 
 
+def rule_read_level(chk, rid, ctx):
+    """hierarchical builders (operations indexed [level, step], a level parameter K): along every production path a
+    `Read [lev, x]` finds a checkpoint - one written earlier on the same path (`Write [lev, x]`), or the builder's own
+    input, which lives at the builder's level K (lev is K, or the constant that the path conditions give to K)"""
+    from ..gram import production_paths
+    g = Grammar(ctx.repo)
+
+    def pinned(conds, name):
+        """constants that `name` certainly equals on the path: conjuncts `name == c` of tests taken as true"""
+        out = set()
+
+        def conj(t):
+            if isinstance(t, ast.BoolOp) and isinstance(t.op, ast.And):
+                for v in t.values:
+                    yield from conj(v)
+            else:
+                yield t
+        for node, val in conds:
+            if val is not True:
+                continue
+            for t in conj(node.test):
+                if isinstance(t, ast.Compare) and len(t.ops) == 1 and isinstance(t.ops[0], ast.Eq):
+                    a, b_ = t.left, t.comparators[0]
+                    if isinstance(b_, ast.Name) and isinstance(a, ast.Constant):
+                        a, b_ = b_, a
+                    if isinstance(a, ast.Name) and a.id == name and isinstance(b_, ast.Constant) and isinstance(b_.value, int):
+                        out.add(b_.value)
+        return out
+    for fname, b in sorted(g.builders.items()):
+        params = [a.arg for a in b.fn.args.args]
+        if not b.live or "K" not in params:
+            continue
+        seen = set()
+        stored = {x.id for x in ast.walk(b.fn) if isinstance(x, ast.Name) and isinstance(x.ctx, (ast.Store, ast.Del))}
+        for conds, items in production_paths(g, fname):
+            # two tests with the same text over names that are never re-assigned have the same outcome on one path
+            truth_of, feasible = {}, True
+            for node, val in conds:
+                if isinstance(val, bool) and not ({x.id for x in ast.walk(node.test) if isinstance(x, ast.Name)} & stored) \
+                        and not any(isinstance(x, ast.Call) for x in ast.walk(node.test)):
+                    k_ = ast.dump(node.test)
+                    if truth_of.setdefault(k_, val) != val:
+                        feasible = False
+            if not feasible:
+                continue
+            written = set()
+            kvals = pinned(conds, "K")
+            flat = []
+            for x in items:
+                flat += list(x[2]) if isinstance(x, tuple) else [x]
+            for it in flat:
+                if it.kind != "op" or not (isinstance(it.idx, ast.List) and len(it.idx.elts) == 2):
+                    continue
+                lv, x = it.level_step()
+                if lv is None or x is None:
+                    continue
+                key = (str(lv), str(x))
+                if it.type == "Write":
+                    written.add(key)
+                elif it.type == "Read":
+                    if id(it.node) in seen and key in written:
+                        continue
+                    ok = None
+                    if key in written:
+                        ok = True
+                    elif str(lv) == "K" or (lv.is_const() and lv.c in kvals):
+                        ok = True
+                    elif lv.is_const() and not kvals:
+                        ok = False
+                    if ok is True and id(it.node) in seen:
+                        continue
+                    seen.add(id(it.node))
+                    chk.decide(rid, it.construct + "/level", ok,
+                               f"{it!r} on the path {[(c[0].lineno, c[1]) for c in conds][-3:]}: " +
+                               ("the checkpoint was written on this path or is the builder's input at level K" if ok else
+                                f"nothing was written to level {lv} at step {x} on this path, and the builder's input lives at level K"
+                                " (K is not fixed by the path conditions)"), rel=b.rel, node=it.node)
+
+
 def run(chk, ctx):
     runs = all_runs(chk, ctx)
     shared.rule_start(chk, "C01.START", runs)
@@ -352,6 +479,7 @@ def run(chk, ctx):
     rule_seq(chk, "C01.SEQ", ctx)
     rule_paired(chk, "C01.SEQ", ctx)
     rule_seq_paths(chk, "C01.SEQ", ctx)
+    rule_read_level(chk, "C01.SEQ", ctx)
     chk.note("not decided: that the split points chosen by the dynamic programs make every sequence executable for all l, "
              "that a loaded checkpoint covers the steps still to be recomputed, and that Mixed's unit re-use never "
              "overwrites a live checkpoint (these depend on run-time table values)")
